@@ -25,7 +25,7 @@ func genFragSpec(r *hx.Rng, maxN int) fragSpec {
 	fs.video = r.Intn(4) != 0
 	fs.timescale = uint32(r.Pick(1000, 12800, 90000, 48000, 25))
 	fs.styp = true
-	fs.defaults = r.Pick(0, 0, 1, 2, 2)
+	fs.defaults = r.Pick(0, 0, 1, 2, 2, 3, 3) // 3: common values lifted to the trex of the init segment
 	fs.baseMode = r.Pick(0, 0, 0, 1, 2, 3)
 	fs.elst = r.Intn(6) == 0
 	fs.trackID = uint32(r.Pick(1, 1, 1, 2, 7))
